@@ -34,7 +34,9 @@ CONSTANTS Ids,        \* group ids other than genesis (small naturals >= 1)
           MaxCount,   \* bound on the number of groups on the chain
           AsCoded,    \* BOOLEAN, see above
           Crashes,    \* BOOLEAN: explore a crash between any two writes
-          Batched     \* BOOLEAN: the writes of one save()/remove() are one atomic batch
+          Batched,    \* BOOLEAN: the writes of one save()/remove() are one atomic batch
+          Recheck     \* BOOLEAN: AddGroup looks the id up again under chain.lock (the repaired tree);
+                      \* FALSE = only before taking it, as in the pinned tree (negative control)
 
 Genesis == 0
 None    == 99          \* "no id" (absent index entry / lookup miss)
@@ -299,8 +301,8 @@ ForkStatesP(s, hx, c, lg, anc, ids, pres) ==
 Rec4(s, hx, c, lg) == [store |-> s, hidx |-> hx, count |-> c, last |-> lg]
 AddLocked(r, g, p, passedHas, earlyOk, early) ==
   IF ~passedHas THEN [r |-> r, ok |-> FALSE]
-  ELSE IF (IF early THEN earlyOk ELSE p = r.last) /\ r.count < MaxCount
-         THEN [r |-> AddPost(r.store, r.hidx, r.count, r.last, g), ok |-> TRUE]
+  ELSE IF (IF early THEN earlyOk ELSE p = r.last) /\ r.count < MaxCount /\ (Recheck => ~r.store[g].present)
+         THEN [r |-> [AddPost(r.store, r.hidx, r.count, r.last, g) EXCEPT !.store[g].pre = p], ok |-> TRUE]  \* the record keeps the predecessor the group NAMES
          ELSE [r |-> r, ok |-> FALSE]
 RemoveLocked(r) == IF r.last # Genesis /\ r.store[r.last].present
                      THEN [r |-> RemovePost(r.store, r.hidx, r.count, r.last), ok |-> TRUE]
@@ -314,4 +316,46 @@ ConcPost(s, hx, c, lg, a, b, first, early) ==
   IN IF first = "a"
        THEN LET x == stepA(r0)  y == stepB(x.r) IN [r |-> y.r, okA |-> x.ok, okB |-> y.ok]
        ELSE LET y == stepB(r0)  x == stepA(y.r) IN [r |-> x.r, okA |-> x.ok, okB |-> y.ok]
+
+(* An AddGroup that overlaps a fork switch which removes at least two groups: the call passes its
+   unlocked id check after the first removal (the driver holds the switch in front of the second
+   removal's store write and starts the call there), then waits for chain.lock, which
+   removeFromCommonAncestor holds over ALL removals; it gets the lock before, between or after
+   the adds of the fork's groups (each AddGroup takes the lock on its own).  j = number of fork
+   groups added before it.  A call that was scheduled late and found its id on the chain is the
+   plain switch. *)
+RECURSIVE ForkAddsWith(_, _, _, _, _, _, _)
+ForkAddsWith(r, ids, pres, prev, j, a, hasA) ==
+  LET r1 == IF j = 0 THEN AddLocked(r, a.g, a.pre, hasA, FALSE, FALSE).r ELSE r IN
+  IF ids = <<>> THEN r1
+  ELSE LET named == IF Head(pres) = 98 THEN prev ELSE Head(pres) IN
+       IF r1.store[Head(ids)].present \/ r1.count >= MaxCount \/ named # r1.last
+         THEN (IF j <= 0 THEN r1 ELSE AddLocked(r1, a.g, a.pre, hasA, FALSE, FALSE).r)
+         ELSE ForkAddsWith(AddPost(r1.store, r1.hidx, r1.count, r1.last, Head(ids)),
+                           Tail(ids), Tail(pres), Head(ids), j - 1, a, hasA)
+ConcForkOutcomes(s, hx, c, lg, anc, ids, pres, a) ==
+  LET r0   == Rec4(s, hx, c, lg)
+      r1   == RemovePost(s, hx, c, lg)
+      hasA == ~r1.store[a.g].present
+      rd   == RemoveDownTo(r0, anc)
+  IN {ForkAddsWith(rd, ids, pres, anc, j, a, hasA) : j \in 0..Len(ids)} \cup {ForkPostP(s, hx, c, lg, anc, ids, pres)}
+ConcForkAt(s, hx, c, lg, anc, ids, pres, a, j) ==      \* the position is known (the driver parks the call)
+  LET r1 == RemovePost(s, hx, c, lg) IN
+  ForkAddsWith(RemoveDownTo(Rec4(s, hx, c, lg), anc), ids, pres, anc, j, a, ~r1.store[a.g].present)
+
+(* negative control: chain.lock taken per removed group instead of around the whole range - the
+   call's locked section lands after the first removal, the loop goes on by height *)
+RemoveAtPost(r, h) ==
+  LET g == r.hidx[h] IN
+  IF g = None \/ ~r.store[g].present THEN r
+  ELSE [store |-> [r.store EXCEPT ![g] = Absent], hidx |-> [r.hidx EXCEPT ![h] = None],
+        count |-> r.count - 1, last |-> r.store[g].pre]
+RECURSIVE RemoveHeights(_, _, _)
+RemoveHeights(r, h, low) == IF h <= low THEN r ELSE RemoveHeights(RemoveAtPost(r, h), h - 1, low)
+ConcForkSplit(s, hx, c, lg, anc, ids, pres, a) ==
+  LET r1   == RemovePost(s, hx, c, lg)
+      hasA == ~r1.store[a.g].present
+      r2   == AddLocked(r1, a.g, a.pre, hasA, FALSE, FALSE).r
+      r3   == RemoveHeights(r2, c - 2, s[anc].height)
+  IN AddAllP(r3, ids, pres, anc)
 =============================================================================
